@@ -23,6 +23,7 @@ type Sink struct {
 	Monitor   []Violation
 	Extra     map[string]interface{}
 	statsPath string
+	perKind   map[string]int
 }
 
 type Violation struct {
@@ -70,8 +71,19 @@ func (s *Sink) Op(kind string, nontrivial bool, op, impl string) {
 // Count adds to the histogram without emitting a protocol line.
 func (s *Sink) Count(kind string) { s.Hist[kind]++ }
 
+// Violate records a monitor violation: at most 5 per kind (property + the first 40 characters of the description),
+// at most 400 in all, so that a frequent one (e.g. a known finding) cannot crowd out a rare one.
 func (s *Sink) Violate(prop, what, replay string) {
-	if len(s.Monitor) < 50 {
+	k := what
+	if len(k) > 40 {
+		k = k[:40]
+	}
+	k = prop + "|" + k
+	if s.perKind == nil {
+		s.perKind = map[string]int{}
+	}
+	s.perKind[k]++
+	if s.perKind[k] <= 5 && len(s.Monitor) < 400 {
 		s.Monitor = append(s.Monitor, Violation{prop, what, replay})
 	}
 }
